@@ -358,12 +358,6 @@ theorem workerActs_shape {R : Nat} {recs : List Rec} (hw : WellKeyed recs)
 /-- `mask` up to call `c`, then every call fails -/
 def cut (mask : Nat → DelOutcome) (c : Nat) : Nat → DelOutcome := fun i => if i < c then mask i else .fail
 
-theorem cut_noCas {mask : Nat → DelOutcome} (hm : ∀ i, mask i ≠ .failCas) (c : Nat) :
-    ∀ i, cut mask c i ≠ .failCas := by
-  intro i; unfold cut; split
-  · exact hm i
-  · simp
-
 theorem runDelete_congr {m1 m2 : Nat → DelOutcome} (st : CompState) (a : Act)
     (h : m1 st.calls = m2 st.calls) : runDelete m1 st a = runDelete m2 st a := by
   cases a <;> simp only [runDelete, h]
@@ -480,10 +474,10 @@ theorem shadow_sorted {recs0 : List Rec} (hs : SortedRecs recs0)
 /-- every prefix of a pass leaves the snapshot `TombClosed` (a crash is a mask) -/
 theorem shadow_tombClosed {recs0 : List Rec} (hs : SortedRecs recs0) (hw : WellKeyed recs0)
     (hk : ∀ r ∈ recs0, Alphabet r.key ∧ r.rev < 2 ^ 64) (hne : ∀ r ∈ recs0, r.key ≠ [])
-    (R : Nat) {mask : Nat → DelOutcome} (hm : ∀ i, mask i ≠ .failCas) {done pend : List Act}
+    (R : Nat) (mask : Nat → DelOutcome) {done pend : List Act}
     (h : workerActs (ccfg R) recs0 = done ++ pend) :
     TombClosed recs0 (shadow recs0 mask done).store := by
-  have key := compact_tombClosed hs hw hk hne R (cut_noCas hm (shadow recs0 mask done).calls)
+  have key := compact_tombClosed hs hw hk hne R (cut mask (shadow recs0 mask done).calls)
   rw [h, runDeletes_append] at key
   have e1 : runDeletes (cut mask (shadow recs0 mask done).calls) { store := encodeStore recs0 } done =
       shadow recs0 mask done := runDeletes_cut done _ (Nat.le_refl _)
@@ -783,7 +777,7 @@ theorem get_restored_snapshot {R : Nat} {s : Store} (hsorted : s.Sorted)
 /-- **Core lemma.** In a state satisfying the invariant, every read at `R' ≥ R` of the live store equals
 the read of the store with the removed snapshot versions put back. -/
 theorem read_restored (hne : ∀ r ∈ recs0, r.key ≠ []) {R : Nat} {mask : Nat → DelOutcome}
-    (hm : ∀ i, mask i ≠ .failCas) {comp : CompState} {pending : List Act}
+    {comp : CompState} {pending : List Act}
     (hsorted : Store.Sorted comp.store) (hgood : GoodKeys comp.store)
     (hold : OldFromSnapshot R recs0 comp.store) (htr : Tracks R recs0 mask comp pending)
     (R' : Nat) (hR : R ≤ R') (k : Bytes) :
@@ -838,7 +832,7 @@ theorem read_restored (hne : ∀ r ∈ recs0, r.key ≠ []) {R : Nat} {mask : Na
   · intro t ht hkeep htomb hpos w hwR hwk h0 hlt
     obtain ⟨t0, ht0, h0t, ek, er, ev, _, hsh⟩ := hmissing t ht hkeep
     have hleT := (shadow_deletable hs hw hk R mask hacts ht0 hsh).1
-    have hclosed := shadow_tombClosed hs hw hk hne R hm hacts t0 ht0 hsh (ev ▸ htomb) h0t
+    have hclosed := shadow_tombClosed hs hw hk hne R mask hacts t0 ht0 hsh (ev ▸ htomb) h0t
     obtain ⟨h64, hik, _⟩ := (mem_storeRecs hLrS hLrG).1 hwR
     cases hL : comp.store.get w.ik with
     | none => rfl
